@@ -110,6 +110,26 @@ def h_shell_new(m, ctx, n, layout=None):
     ctx.cover('shell_new_' + ('ok' if r.idx == 0 else 'err'))
 
 
+def h_big_output(m, ctx, nbytes, stream, mode='Build'):
+    """a command that writes more than a pipe holds (64 KiB) to stdout, or to stderr while failing: no hang, no panic"""
+    it = Interp(m, ctx)
+    it.max_loop_visits = 200000
+    source = tuple(b'-TXTPP#run c1\n')
+    se = SymEnv(ctx, inc_len=0, out_len=0)
+    env = se.install(it, source)
+    big = tuple([111] * (nbytes - 1)) + (10,)
+    tail = ctx.fresh_bytes('t', 1, [111, 10])
+    res = (0, big[:-1] + tail, ()) if stream == 'stdout' else (1, (), big)
+    se.cmd_results.append(({'args': [StrV(tuple(b'c1'))]}, res[0], res[1]))
+    env.proc_handler = lambda it_, rec: res
+    set_data(ctx, {'op': 'raw', 'mode': mode, 'source': list(source), 'inc': [], 'pre_out': None, 'pre_temp': None,
+                   'cmd_results': [(res[0], syms_of(res[1]))], 'stderr_bytes': len(res[2])})
+    r = run_preprocess(m, it, mode, False, True)
+    ctx.cover('big_output_' + stream)
+    if (r.idx == 0) != (res[0] == 0):
+        violation(ctx, 'verdict does not follow the exit status of a command with a large output', ctx.notes['data'])
+
+
 def h_threads(m, ctx, threads, fail):
     w = sched.World(m, ctx, 2, ['F0.txtpp', 'F1.txtpp'], acyclic_only=True, allow_self=False, fail_budget=1 if fail else 0)
     it = Interp(m, ctx)
@@ -163,6 +183,9 @@ def jobs(tier):
             js.append({'name': 'raw tail after %r %s' % (head, mode), 'harness': (H, 'h_raw_file'),
                        'params': {'n': 2, 'mode': mode, 'layout': (0, head), 'pre_temp_len': 2, 'pre_out_len': 3 if mode == 'Verify' else None},
                        'split': 4})
+    for nb, stream in ((65537, 'stdout'), (70000, 'stderr')) if quick else ((65536, 'stdout'), (65537, 'stdout'), (200000, 'stdout'), (70000, 'stderr')):
+        js.append({'name': 'command writing %d bytes to %s' % (nb, stream), 'harness': (H, 'h_big_output'), 'params': {'nbytes': nb, 'stream': stream},
+                   'max_steps': 20_000_000})
     for n in ((0, 1, 2, 3) if quick else (0, 1, 2, 3, 4, 5)):
         js.append({'name': 'Shell::new on %d arbitrary bytes' % n, 'harness': (H, 'h_shell_new'), 'params': {'n': n}})
     for lay in ((0, b'sh'), (1, b'sh'), (2, b'bash')):
@@ -201,7 +224,7 @@ ASSUMPTIONS = ['symbolic bytes >= 0x80 inside a file are treated as invalid UTF-
                'resource exhaustion (huge inputs) and real time are outside the claim; the coordinator hang check is C03',
                'a panic inside std that the contract models do not know about is not visible (std preconditions modelled: index bounds, char '
                'boundaries, unwrap/expect, threadpool num_threads > 0, send on a dropped channel)']
-COVERS_REQUIRED = ['shell_new_ok', 'shell_new_err', 'leaf', 'leaf_addline', 'raw_Build_ok', 'raw_Build_err', 'raw_Verify_err', 'raw_Clean_ok', 'threads_0_err', 'threads_16_ok']
+COVERS_REQUIRED = ['big_output_stdout', 'big_output_stderr', 'shell_new_ok', 'shell_new_err', 'leaf', 'leaf_addline', 'raw_Build_ok', 'raw_Build_err', 'raw_Verify_err', 'raw_Clean_ok', 'threads_0_err', 'threads_16_ok']
 
 
 def finding_key(v, detail):
@@ -251,7 +274,13 @@ def replay(native, v):
         return out == 'PANIC', {'threads': d['threads'], 'native': out}
     if op == 'raw':
         from .fsprops import MODE_ARGS
-        res = ppreplay.run_native_history(d, model, [(MODE_ARGS[d['mode']], True)])[0]
+        import subprocess
+        if d.get('stderr_bytes'):
+            d = dict(d, stderr_results=[d['stderr_bytes']])
+        try:
+            res = ppreplay.run_native_history(d, model, [(MODE_ARGS[d['mode']], True)])[0]
+        except subprocess.TimeoutExpired:
+            return True, {'source': repr(ppreplay.conc(d['source'], model)), 'rc': 'HANG (killed after 60 s)'}
         return res['rc'] not in (0, 1), {'source': repr(ppreplay.conc(d['source'], model)), 'rc': res['rc'], 'stderr': res['stderr'][-200:]}
     if op == 'sched':
         if 'worker thread panics' in v['msg']:
